@@ -6,9 +6,9 @@ package main
 // Larking/Gen/*.lean. Regenerates data and small expression skeletons only.
 
 import (
-	"github.com/gobwas/ws"
 	"encoding/json"
 	"fmt"
+	"github.com/gobwas/ws"
 	"go/ast"
 	"go/parser"
 	"go/token"
